@@ -3,8 +3,8 @@ import OntVerif.Gen.Recover
 import OntVerif.Util.Hex
 /-!
 Line driver for C01: `CR:<h>:<k>:<t> blk;blk;…` (see harness/cmd/c01/main.go). The model runs the uncrashed chain with
-the toy block semantics (`Model.Recover.Toy`), builds the crash state of block `h` (`k` durable commits in the generated
-commit order, `t` durable bytes of the hash-file append), reopens it with the replay loop bounds generated from
+the toy block semantics (`Model.Recover.Toy`), builds the crash state of block `h` (any subset of the three store commits durable — `reach=1` iff it is a prefix of the generated
+commit order —, `t` durable bytes of the hash-file append), reopens it with the replay loop bounds generated from
 `recoverStore`, and prints the same observations as the harness.
 -/
 namespace OntVerif.Driver.C01
@@ -57,7 +57,14 @@ def addW (L : TLedger) (b : Option Blk) : TLedger × String :=
     | .ok L' => (L', "ok")
     | .error e => (L, "rej:" ++ errClass e)
 
-def caseOut (ids : List Nat) (h k : Nat) (t : Option Nat) : String :=
+/-- the subset is the set of the first `k` commits of the generated commit order, for some `k` -/
+def reachable (set : List Nat) : Bool :=
+  (List.range 4).any fun k =>
+    let p := commitOrder.take k
+    p.length == k && set.length == k && p.all set.contains
+
+/-- `set`: the stores whose commit is durable (0 block, 1 event, 2 state), any subset -/
+def caseOut (ids : List Nat) (h : Nat) (set : List Nat) (t : Option Nat) : String :=
   let L0 := genesisLedger commitOrder
   let chain := build commitOrder ids L0
   if chain.length ≠ ids.length then "uncrashed-failed" else
@@ -68,15 +75,20 @@ def caseOut (ids : List Nat) (h k : Nat) (t : Option Nat) : String :=
     | some F =>
       let app := F.data.length
       let t := match t with | none => app | some v => min v app
-      if k = 3 ∧ t < app then "unreachable" else
-      match crashDisk sem commitOrder L b k t with
+      if set.contains 2 ∧ t < app then "unreachable" else
+      match crashDisk sem set L b set.length t with
       | none => "uncrashed-failed"
       | some d =>
+        if !reachable set then
+          (match reopen sem loopLo loopHi blockArg recoverCommits d with
+           | .error e => "reach=0 open=err:" ++ errClass e
+           | .ok L' => s!"reach=0 open=ok h={L'.height}")
+        else
         match reopen sem loopLo loopHi blockArg recoverCommits d with
-        | .error e => "open=err:" ++ errClass e
+        | .error e => "reach=1 open=err:" ++ errClass e
         | .ok L' =>
           let H := L'.height
-          let pre := s!"open=ok h={H} flen={L'.disk.file.length}"
+          let pre := s!"reach=1 open=ok h={H} flen={L'.disk.file.length}"
           if H ≠ h - 1 ∧ H ≠ h then pre ++ " obs=na" else
           match ledgerAt L0 chain H with
           | none => pre ++ " obs=na"
@@ -104,9 +116,25 @@ def caseOut (ids : List Nat) (h k : Nat) (t : Option Nat) : String :=
 def idsOf (ops : List String) : List Nat :=
   (ops.zipIdx).map fun (op, i) => mix (strHash op) (i + 1)
 
+def setName (set : List Nat) : String :=
+  let s := (if set.contains 0 then "b" else "") ++ (if set.contains 1 then "e" else "") ++ (if set.contains 2 then "s" else "")
+  if s.isEmpty then "-" else s
+
+def parseSet (s : String) : Option (List Nat) :=
+  match s with
+  | "-" | "0" => some []
+  | "b" | "1" => some [0]
+  | "e" => some [1]
+  | "s" => some [2]
+  | "be" | "2" => some [0, 1]
+  | "bs" => some [0, 2]
+  | "es" => some [1, 2]
+  | "bes" | "3" => some [0, 1, 2]
+  | _ => none
+
 def good (out : String) : Bool :=
   out == "unreachable" ||
-  (["open=ok", "obs=eq", "add=ok,ok", "obs2=eq", "stores=eq", "reopen=ok", "obs3=eq"].all fun w => (out.splitOn " ").contains w)
+  (["reach=1", "open=ok", "obs=eq", "add=ok,ok", "obs2=eq", "stores=eq", "reopen=ok", "obs3=eq"].all fun w => (out.splitOn " ").contains w)
 
 /-- model search used when the proof no longer checks: the first crash point of a 5-block chain from which the model
 (with the bounds the code has now) does not recover -/
@@ -115,10 +143,10 @@ def search : String :=
   let ids := idsOf ops
   let cands : List (Nat × Nat × Option Nat) :=
     (List.range 3).flatMap fun h => (List.range 4).flatMap fun k => [some 0, some 16, some 32, none].map fun t => (h + 1, k, t)
-  match cands.find? (fun (h, k, t) => !good (caseOut ids h k t)) with
+  match cands.find? (fun (h, k, t) => !good (caseOut ids h (commitOrder.take k) t)) with
   | some (h, k, t) =>
     let ts := match t with | none => "all" | some v => toString v
-    s!"witness CR:{h}:{k}:{ts} e;e;e;e;e => {caseOut ids h k t}"
+    s!"witness CR:{h}:{setName (commitOrder.take k)}:{ts} e;e;e;e;e => {caseOut ids h (commitOrder.take k) t}"
   | none => "none"
 
 def handle (line : String) : String :=
@@ -129,13 +157,13 @@ def handle (line : String) : String :=
     match hd.splitOn ":" with
     | ["CR", hs, ks, ts] =>
       let ops := spec.splitOn ";"
-      match hs.toNat?, ks.toNat? with
-      | some h, some k =>
-        if !(hs.toList.all Char.isDigit) || !(ks.toList.all Char.isDigit) || h < 1 || h + 2 > ops.length || k > 3 then "skip"
+      match hs.toNat?, parseSet ks with
+      | some h, some set =>
+        if !(hs.toList.all Char.isDigit) || h < 1 || h + 2 > ops.length then "skip"
         else if !(ops.all opOk) then "skip"
-        else if ts == "all" then caseOut (idsOf ops) h k none
+        else if ts == "all" then caseOut (idsOf ops) h set none
         else if ts.toList.all Char.isDigit && !ts.isEmpty then
-          (match ts.toNat? with | some t => caseOut (idsOf ops) h k (some t) | none => "skip")
+          (match ts.toNat? with | some t => caseOut (idsOf ops) h set (some t) | none => "skip")
         else "skip"
       | _, _ => "skip"
     | _ => "bad-op"
